@@ -376,4 +376,8 @@ func runC04(c *Ctx) {
 		}
 	})
 	c.Min("C04-R7", 6)
+
+	// crash windows of a reorganisation: the number entries above the new head are removed only after the new chain was
+	// inserted (relative to the new head), never before the head moved - decided by C03's sibling rule, shared here
+	c.Borrow("C03", runC03, map[string]string{"C03-R3": "C04-R8"})
 }
